@@ -261,6 +261,9 @@ async fn establish(mode: &str, pre: &str, t: &Tmpl) -> PeerConnection {
 }
 
 async fn make_templates(mode: &str, pre: &str) -> Tmpl {
+    // "connected": the remote descriptions are made per program by the live peer (its certificate is
+    // the one the running DTLS session is bound to); the local-side templates come from a negotiated pair.
+    let pre = if pre == "connected" { "offerer" } else { pre };
     // pair A: the peer's (re-)offer, our (re-)offer and the peer's answer to it
     let (pc_a, peer_a, pre_remote) = make_pair(mode, pre, false).await;
     let mut r_offer = expect_ok("peerA.create_offer", peer_a.create_offer().await).await;
@@ -335,6 +338,25 @@ fn mutate_malformed(d: &mut SessionDescription, class: &str) {
                 m.attributes.iter_mut().for_each(fix);
             }
         }
+        "otherfp" => {
+            // a well-formed sha-256 fingerprint of some other certificate
+            let fix = |a: &mut rustrtc::sdp::Attribute| {
+                if a.key == "fingerprint"
+                    && let Some(v) = &a.value
+                    && let Some((alg, hex)) = v.split_once(' ')
+                {
+                    let mut h: Vec<char> = hex.chars().collect();
+                    if let Some(c) = h.first_mut() {
+                        *c = if *c == 'A' { 'B' } else { 'A' };
+                    }
+                    a.value = Some(format!("{alg} {}", h.into_iter().collect::<String>()));
+                }
+            };
+            d.session.attributes.iter_mut().for_each(fix);
+            for m in &mut d.media_sections {
+                m.attributes.iter_mut().for_each(fix);
+            }
+        }
         "mid65535" => {
             if let Some(m) = d.media_sections.first_mut() {
                 let old = std::mem::replace(&mut m.mid, "65535".into());
@@ -353,6 +375,33 @@ fn mutate_malformed(d: &mut SessionDescription, class: &str) {
             }
         }
         _ => {}
+    }
+}
+
+/// Copy fingerprint and ICE credentials of `src` into every media section of `dst`.
+fn adopt_transport_identity(src: &SessionDescription, dst: &mut SessionDescription) {
+    let Some(first) = src.media_sections.first() else { return };
+    for key in ["fingerprint", "ice-ufrag", "ice-pwd"] {
+        let val = first
+            .attributes
+            .iter()
+            .chain(src.session.attributes.iter())
+            .find(|a| a.key == key)
+            .and_then(|a| a.value.clone());
+        if let Some(v) = val {
+            for m in &mut dst.media_sections {
+                for a in &mut m.attributes {
+                    if a.key == key {
+                        a.value = Some(v.clone());
+                    }
+                }
+            }
+            for a in &mut dst.session.attributes {
+                if a.key == key {
+                    a.value = Some(v.clone());
+                }
+            }
+        }
     }
 }
 
@@ -466,8 +515,8 @@ fn call_key(c: &Value) -> String {
     format!("{}:{}:{}", c["op"].as_str().unwrap(), c["t"].as_str().unwrap(), c["d"].as_str().unwrap())
 }
 
-fn abs_key(sig: &str, hl: bool, hr: bool) -> String {
-    format!("{sig}/{hl}/{hr}")
+fn abs_key(pre: &str, sig: &str, hl: bool, hr: bool) -> String {
+    format!("{pre}/{sig}/{hl}/{hr}")
 }
 
 struct Table {
@@ -497,7 +546,51 @@ async fn run_program(mode: String, prog: Value, table: Arc<Table>, tm: Arc<Tmpl>
     let mut out = Vec::new();
     let mut hits = Vec::new();
     let mut counts = [0u64; 4]; // calls ok err panic
-    let pc = establish(&mode, &pre, &tm).await;
+    let mut tm = tm;
+    let mut _live_peer = None;
+    let pc = if pre == "connected" {
+        // a really connected pair (ICE + DTLS up); the peer stays alive for the whole program and
+        // produces the remote descriptions of this program
+        // (establishing the connection is not what this check is about: retry on a loaded machine)
+        let mut pair = None;
+        for _attempt in 0..4 {
+            let (pc, peer, _) = make_pair(&mode, "connected", true).await;
+            let wait = async {
+                let a = pc.wait_for_connected().await;
+                let b = peer.wait_for_connected().await;
+                a.is_ok() && b.is_ok()
+            };
+            if tokio::time::timeout(std::time::Duration::from_secs(20), wait).await == Ok(true) {
+                pair = Some((pc, peer));
+                break;
+            }
+            pc.close();
+            peer.close();
+        }
+        let Some((pc, peer)) = pair else {
+            out.push(json!({"type": "tool_error", "what": "pair did not connect in 4 attempts of 20 s", "mode": mode}));
+            return (out, hits, counts);
+        };
+        let mut t2 = (*tm).clone();
+        let mut ro = expect_ok("live peer.create_offer", peer.create_offer().await).await;
+        strip_candidates(&mut ro);
+        t2.r_offer = ro;
+        // our re-offer as the live peer must see it: the template's media, this connection's transport identity
+        let mut lo = t2.l_offer.clone();
+        if let Some(cur) = pc.local_description() {
+            adopt_transport_identity(&cur, &mut lo);
+        }
+        t2.l_offer = lo.clone();
+        expect_ok("live peer.set_remote(l_offer)", peer.set_remote_description(lo).await).await;
+        let mut ra = expect_ok("live peer.create_answer", peer.create_answer().await).await;
+        strip_candidates(&mut ra);
+        t2.r_answer = ra;
+        tm = Arc::new(t2);
+        _live_peer = Some(peer);
+        pc
+    } else {
+        establish(&mode, &pre, &tm).await
+    };
     let mut run = Run { pc, last_offer: None, last_answer: None };
     // the model's view of the description slots (ids)
     let p0 = project(&run.pc);
@@ -528,7 +621,7 @@ async fn run_program(mode: String, prog: Value, table: Arc<Table>, tm: Arc<Tmpl>
                 ("Panic", p.clone())
             }
         };
-        let st = abs_key(&m_sig, m_local != 0, m_remote != 0);
+        let st = abs_key(&pre, &m_sig, m_local != 0, m_remote != 0);
         let key = (st.clone(), call_key(call), res.to_string());
         let base = json!({
             "sub": "jsep", "mode": mode, "pre": pre, "step": i, "call": call["op"], "t": call["t"], "d": call["d"],
@@ -614,7 +707,12 @@ fn main() {
     let mut edges = HashMap::new();
     for e in read_ndjson(&args[1]) {
         let f = &e["from"];
-        let st = abs_key(f["sig"].as_str().unwrap(), f["hasLocal"].as_bool().unwrap(), f["hasRemote"].as_bool().unwrap());
+        let st = abs_key(
+            e["pre"].as_str().unwrap(),
+            f["sig"].as_str().unwrap(),
+            f["hasLocal"].as_bool().unwrap(),
+            f["hasRemote"].as_bool().unwrap(),
+        );
         edges.insert((st, call_key(&e["call"]), e["res"].as_str().unwrap().to_string()), e);
     }
     let table = Arc::new(Table { edges });
